@@ -274,4 +274,18 @@ theorem fsMount_propagation_fault_triple (w0 : World) (src tgt fstype opts : Byt
   all_goals (try (simp_all (config := { zetaDelta := true }) [mountFlagsOf]))
   all_goals (try omega)
 
+/-- how many fault points one `fs.Mount` passes: two for an rbind of /dev, /sys, /run (the
+    mount and the propagation change), one otherwise; on an error exit at least one and at
+    most two -/
+theorem fsMount_fault_points (w0 : World) (src tgt fstype opts : Bytes)
+    (hp : w0.pretend = false) (hc : w0.crashAt = none) (hf : w0.faultAt = none) :
+    ⦃fun w => ⌜w = w0⌝⦄ fsMount src tgt fstype opts
+    ⦃post⟨fun _ w => ⌜w.nops = w0.nops +
+              (if src == b!"/dev" || src == b!"/sys" || src == b!"/run" then 2 else 1)⌝,
+          fun _ w => ⌜w0.nops < w.nops ∧ w.nops ≤ w0.nops + 2⌝⟩⦄ := by
+  mvcgen [fsMount, gate, sysMount, record, getW, setW, fail]
+  all_goals (try subst_vars)
+  all_goals (try (simp_all (config := { zetaDelta := true })))
+  all_goals (try omega)
+
 end Lc.FaultOk
